@@ -2,8 +2,10 @@
 package document
 
 import (
+	"bytes"
 	"encoding/xml"
 	"fmt"
+	"sort"
 	"strconv"
 )
 
@@ -221,20 +223,112 @@ type FootnoteManager struct {
 	nextEndnoteID  int
 	footnotes      map[string]*Footnote
 	endnotes       map[string]*Endnote
+	// existingFootnotes / existingEndnotes 是打开的文档原有的 word/footnotes.xml / word/endnotes.xml
+	// （原样保留，包括分隔符条目；新的脚注/尾注追加在其中）；新建的文档为 nil
+	existingFootnotes *existingPart
+	existingEndnotes  *existingPart
 }
 
 // getFootnoteManager 获取文档自己的脚注/尾注管理器（按需创建）。
 // 每个文档拥有独立的管理器：脚注/尾注的编号和内容不会在文档之间共享。
+// 打开的文档已有脚注/尾注部件时，管理器从其中的条目之后继续：
+// 已有的脚注/尾注保留并计入数量，新的ID从已有的最大值之后开始。
 func (d *Document) getFootnoteManager() *FootnoteManager {
 	if d.footnoteManager == nil {
-		d.footnoteManager = &FootnoteManager{
+		manager := &FootnoteManager{
 			nextFootnoteID: 1,
 			nextEndnoteID:  1,
 			footnotes:      make(map[string]*Footnote),
 			endnotes:       make(map[string]*Endnote),
 		}
+		if data, exists := d.parts["word/footnotes.xml"]; exists {
+			if existing, err := parseExistingPart(data, "footnotes"); err == nil {
+				manager.existingFootnotes = existing
+				manager.nextFootnoteID = existing.maxID("footnote", 0) + 1
+			} else {
+				Debugf("已有的 word/footnotes.xml 无法读取，将被重新生成: %v", err)
+			}
+		}
+		if data, exists := d.parts["word/endnotes.xml"]; exists {
+			if existing, err := parseExistingPart(data, "endnotes"); err == nil {
+				manager.existingEndnotes = existing
+				manager.nextEndnoteID = existing.maxID("endnote", 0) + 1
+			} else {
+				Debugf("已有的 word/endnotes.xml 无法读取，将被重新生成: %v", err)
+			}
+		}
+		d.footnoteManager = manager
 	}
 	return d.footnoteManager
+}
+
+// isUserNote 判断已有部件中的条目是不是用户的脚注/尾注（而不是分隔符等特殊条目）
+func (c existingChild) isUserNote(local string) bool {
+	if c.local != local {
+		return false
+	}
+	switch c.typ {
+	case "separator", "continuationSeparator", "continuationNotice":
+		return false
+	}
+	return true
+}
+
+// countUserNotes 返回已有部件中用户脚注/尾注的数量
+func (p *existingPart) countUserNotes(local string) int {
+	if p == nil {
+		return 0
+	}
+	count := 0
+	for _, child := range p.children {
+		if child.isUserNote(local) {
+			count++
+		}
+	}
+	return count
+}
+
+// removeUserNote 从已有部件中删除指定ID的用户脚注/尾注，返回是否找到
+func (p *existingPart) removeUserNote(local, id string) bool {
+	if p == nil {
+		return false
+	}
+	for i, child := range p.children {
+		if child.isUserNote(local) && child.id == id {
+			p.children = append(p.children[:i:i], p.children[i+1:]...)
+			return true
+		}
+	}
+	return false
+}
+
+// mergeNotes 把新的脚注/尾注（按ID顺序）追加到已有部件的条目之后，已有条目原样保留
+func mergeNotes(existing *existingPart, added map[string]interface{}) ([]byte, error) {
+	ids := make([]string, 0, len(added))
+	for id := range added {
+		ids = append(ids, id)
+	}
+	sort.Slice(ids, func(i, j int) bool {
+		a, _ := strconv.Atoi(ids[i])
+		b, _ := strconv.Atoi(ids[j])
+		return a < b
+	})
+
+	var buf bytes.Buffer
+	buf.Write(existing.head)
+	for _, child := range existing.children {
+		buf.Write(child.raw)
+	}
+	for _, id := range ids {
+		if err := existing.marshalInto(&buf, added[id]); err != nil {
+			return nil, err
+		}
+	}
+	if bytes.HasPrefix(existing.tail, []byte("<")) {
+		buf.WriteByte('\n')
+	}
+	buf.Write(existing.tail)
+	return buf.Bytes(), nil
 }
 
 // clone 返回管理器的独立副本（脚注/尾注对象创建后不再修改，可以共享）
@@ -247,6 +341,9 @@ func (m *FootnoteManager) clone() *FootnoteManager {
 		nextEndnoteID:  m.nextEndnoteID,
 		footnotes:      make(map[string]*Footnote, len(m.footnotes)),
 		endnotes:       make(map[string]*Endnote, len(m.endnotes)),
+
+		existingFootnotes: m.existingFootnotes.clone(),
+		existingEndnotes:  m.existingEndnotes.clone(),
 	}
 	for id, n := range m.footnotes {
 		c.footnotes[id] = n
@@ -512,6 +609,18 @@ func (d *Document) createNoteContent(noteID string, noteText string, noteType Fo
 func (d *Document) updateFootnotesFile() {
 	manager := d.getFootnoteManager()
 
+	// 打开的文档：保留已有的条目，把新的脚注追加进去
+	if manager.existingFootnotes != nil {
+		added := make(map[string]interface{}, len(manager.footnotes))
+		for id, footnote := range manager.footnotes {
+			added[id] = footnote
+		}
+		if merged, err := mergeNotes(manager.existingFootnotes, added); err == nil {
+			d.parts["word/footnotes.xml"] = merged
+		}
+		return
+	}
+
 	footnotes := &Footnotes{
 		Xmlns:     "http://schemas.openxmlformats.org/wordprocessingml/2006/main",
 		Footnotes: []*Footnote{},
@@ -552,6 +661,18 @@ func (d *Document) updateFootnotesFile() {
 // updateEndnotesFile 更新尾注文件
 func (d *Document) updateEndnotesFile() {
 	manager := d.getFootnoteManager()
+
+	// 打开的文档：保留已有的条目，把新的尾注追加进去
+	if manager.existingEndnotes != nil {
+		added := make(map[string]interface{}, len(manager.endnotes))
+		for id, endnote := range manager.endnotes {
+			added[id] = endnote
+		}
+		if merged, err := mergeNotes(manager.existingEndnotes, added); err == nil {
+			d.parts["word/endnotes.xml"] = merged
+		}
+		return
+	}
 
 	endnotes := &Endnotes{
 		Xmlns:    "http://schemas.openxmlformats.org/wordprocessingml/2006/main",
@@ -637,24 +758,25 @@ func (d *Document) addEndnoteRelationship() {
 // GetFootnoteCount 获取脚注数量
 func (d *Document) GetFootnoteCount() int {
 	manager := d.getFootnoteManager()
-	return len(manager.footnotes)
+	return len(manager.footnotes) + manager.existingFootnotes.countUserNotes("footnote")
 }
 
 // GetEndnoteCount 获取尾注数量
 func (d *Document) GetEndnoteCount() int {
 	manager := d.getFootnoteManager()
-	return len(manager.endnotes)
+	return len(manager.endnotes) + manager.existingEndnotes.countUserNotes("endnote")
 }
 
 // RemoveFootnote 删除指定脚注
 func (d *Document) RemoveFootnote(footnoteID string) error {
 	manager := d.getFootnoteManager()
 
-	if _, exists := manager.footnotes[footnoteID]; !exists {
+	if _, exists := manager.footnotes[footnoteID]; exists {
+		delete(manager.footnotes, footnoteID)
+	} else if !manager.existingFootnotes.removeUserNote("footnote", footnoteID) {
 		return fmt.Errorf("脚注 %s 不存在", footnoteID)
 	}
 
-	delete(manager.footnotes, footnoteID)
 	d.updateFootnotesFile()
 
 	return nil
@@ -664,11 +786,12 @@ func (d *Document) RemoveFootnote(footnoteID string) error {
 func (d *Document) RemoveEndnote(endnoteID string) error {
 	manager := d.getFootnoteManager()
 
-	if _, exists := manager.endnotes[endnoteID]; !exists {
+	if _, exists := manager.endnotes[endnoteID]; exists {
+		delete(manager.endnotes, endnoteID)
+	} else if !manager.existingEndnotes.removeUserNote("endnote", endnoteID) {
 		return fmt.Errorf("尾注 %s 不存在", endnoteID)
 	}
 
-	delete(manager.endnotes, endnoteID)
 	d.updateEndnotesFile()
 
 	return nil
